@@ -17,7 +17,7 @@ CLAIMED = {
          "DESIGN.md §6 C02"),
  "C03": ("exploration",
          "differential property testing of looping rule sets (generated counters, always-true rules, toggles, chains) against a multi-pass REF interpreter with no-loop, plus fixpoint re-evaluation and a termination watchdog",
-         "For every generated program and every max_cycles in 0..=64: the call returns (120 s watchdog in a monitor process), cycle_count <= max_cycles, rules_fired = callbacks, the pass count / firing sequence / final facts equal REF's, and when the engine stops early no eligible rule is true on its own final facts. Both execute_with_callback and execute are driven; part reuse makes 2-3 calls on one engine (activation groups, failing actions) and judges the per-call clauses.",
+         "For every generated program and every max_cycles in 0..=64: the call returns (120 s watchdog in a monitor process), cycle_count <= max_cycles, rules_fired = callbacks, the pass count / firing sequence / final facts equal REF's, and when the engine stops early no eligible rule is true on its own final facts. Both execute_with_callback and execute are driven; directly built rules may have an empty action list (a firing without actions still counts and keeps the loop going); part reuse makes 2-3 calls on one engine (activation groups, failing actions) and judges the per-call clauses.",
          "Trusts REF; termination means 'returns within the 120 s watchdog'; wall-clock timeout disabled as the quantifier says.",
          "DESIGN.md §6 C03"),
  "C20": ("fault_enumeration",
@@ -37,7 +37,7 @@ CLAIMED = {
          "DESIGN.md §6 C19, §8"),
  "C04": ("exploration",
          "grammar-based property testing of the GRL parser: files generated from the documented grammar with layout/comment noise, judged by a full structural round trip against the generating AST, by a metamorphic relation (each rule of a file equals the canonical one-line print of that rule parsed alone) and by agreement of the three entry points; exhaustive enumeration of attribute subsets/orders and of small condition trees; optional libFuzzer target over the same byte decoding",
-         "Every parsed Rule (name, salience, flags, groups, dates, condition tree modulo associativity, action list) must equal what was written, in source order, whatever the whitespace, line breaks, comments and neighbouring rules; parse_rule and parse_with_modules must agree with parse_rules. 11 recorded findings (string literals are not opaque to the regex-split parser, $-forms, parenthesised left sides) are excluded by per-finding generator switches and re-checked through their witnesses on every run.",
+         "Every parsed Rule (name, salience, flags, groups, dates, condition tree modulo associativity, action list) must equal what was written, in source order, whatever the whitespace, line breaks, comments and neighbouring rules; parse_rule and parse_with_modules must agree with parse_rules. 7 recorded findings (a brace or ' then ' inside a string literal moves a boundary drawn by a regular expression, a ')' inside a string argument of a function call in a condition, tight bare arithmetic, $-forms, parenthesised left sides; four more were repaired by fix commits and are regression cases now) are excluded by per-finding generator switches and re-checked through their witnesses on every run.",
          "Grammar = the documented one minus aspirational constructs; Rule.description is not judged (the statement does not list it). Each known finding's switch is armed only while its `known:` line is present.",
          "DESIGN.md §6 C04, §10.5"),
  "C05": ("exploration",
@@ -47,12 +47,12 @@ CLAIMED = {
          "DESIGN.md §6 C05, §10.5"),
  "C06": ("exploration",
          "stateful property testing of the incremental RETE engine: generated single-type rule sets converted by the real GRL loader with recorder-wrapped actions, histories of insert/update/retract/fire_all/reset, judged by REF on the matched fact's contents at firing time, a completeness oracle for every fire_all of the all-noop sub-domain, and a 4-view working-memory invariant; exhaustive short histories",
-         "Every firing in every generated history is checked at the moment it happens: the matched handle (exposed by a hook) is live and REF says the rule's condition is true of exactly the contents the engine presents; when actions are no-ops and rules no-loop, every fire_all fires each armed rule that a newly written live fact satisfies, and nothing that no live fact satisfies; all working-memory views agree after every operation and retracted handles are rejected. Bounded by <= 6 facts, <= 3 types, <= 4 rules, histories <= 15.",
+         "Every firing in every generated history is checked at the moment it happens: the matched handle (exposed by a hook) is live and REF says the rule's condition is true of exactly the contents the engine presents; when actions are no-ops and rules no-loop, every fire_all fires each armed rule that a newly written live fact satisfies, and nothing that no live fact satisfies; updates may change only the type of a value (type twins), and where REF is undefined a fresh engine holding only that rule is asked whether it fires for the same contents; all working-memory views agree after every operation and retracted handles are rejected. Bounded by <= 6 facts, <= 3 types, <= 4 rules, histories <= 15.",
          "Trusts REF on a well-typed sub-core (multi-type joins, multi-operator arithmetic excluded); facts may lack a field: a firing is flagged only if the condition is false under both readings of an absent field (null / atom false), demanded only if true under both; cross-type activations are not judged.",
          "DESIGN.md §6 C06"),
  "C07": ("exploration",
          "model-based property testing of the RETE agenda (validity predicate on every pop over generated add/pop/mark/focus/reset sequences, exhaustive to length 5-6) and termination testing of the three fire_all entry points with fuel-counting actions under a watchdog",
-         "Every activation returned by get_next_activation must be pending, in the focused group, not excluded by no-loop / fired activation group, and maximal by (salience, earlier created_at) among the definitely eligible ones; fire_all of IncrementalEngine, TypedReteUlEngine and ReteUlEngine must return within its iteration bound for generated always-true and self-re-enabling rule sets.",
+         "Every activation returned by get_next_activation must be pending, in the focused group (the focus may only fall back to a group that was left through set_focus since the last clear), not excluded by no-loop / fired activation group, and maximal by (salience, earlier created_at) among the definitely eligible ones; fire_all of IncrementalEngine, TypedReteUlEngine and ReteUlEngine must return within its iteration bound for generated always-true and self-re-enabling rule sets.",
          "created_at is set through the public field for determinism; lock-on-active/auto-focus/ruleflow not exercised; order of the two non-incremental engines not judged.",
          "DESIGN.md §6 C07"),
  "C08": ("exploration",
@@ -102,7 +102,7 @@ CLAIMED = {
          "DESIGN.md §6 C17"),
  "C13": ("exploration",
          "model-based property testing (proptest-driven byte strings decoded into timestamp sequences + exhaustive small-scope enumeration) against an executable watermark/late-data model",
-         "Every prefix of every generated sequence is compared with a model written from the statement (watermark value and monotonicity, accepted/side-output/dropped routing, statistics, conservation). Random search over lengths up to 12 plus complete enumeration of short sequences over a 6-value domain for 20 configurations; bounded by those sizes, no claim beyond them.",
+         "Every prefix of every generated sequence is compared with a model written from the statement (watermark value and monotonicity, accepted/side-output/dropped routing, statistics, conservation). Random search over lengths up to 12 plus complete enumeration of short sequences over a 6-value domain for 20 configurations; part components drives WatermarkGenerator and LateDataHandler directly (with side-output drains) against the same model; bounded by those sizes, no claim beyond them.",
          "Trusts the harness model (60 lines, written from the statement); the Periodic strategy is driven with real sleeps and judged against the watermark observed through the API just before each call; Custom (no-op) is outside the statement.",
          "DESIGN.md §6 C13"),
 }
